@@ -1,10 +1,62 @@
-(* Props/C11_tcpascii.v — placeholder header; statements are added below. *)
-From PM.theories Require Import Base Expr Struct FrBaseA Lrc FrTcp FrAscii FrTls FrSpecA.
+(* Props/C11_tcpascii.v — C11 (resynchronisation, never deaf), ASCII framer (TCP is out of the
+   property's scope).  [a_sync st]: empty buffer, cleared header. *)
+From PM.theories Require Import Base Expr Struct FrBaseA Lrc FrAscii FrSpecA.
 From PM.Generated Require Import GenFramerA.
-From PM.proofs Require Import FrA_lrc_proofs FrA_stream_proofs.
+From PM.proofs Require Import FrA_lrc_proofs FrA_ascii_proofs.
 Open Scope list_scope.
 Open Scope Z_scope.
 
-Theorem C11_lrc_sum_zero : forall bs : bytes, (bsum bs + spec_lrc bs) mod 256 = 0.
-Proof. exact spec_lrc_sum. Qed.
-Print Assumptions C11_lrc_sum_zero.
+(* from the synchronised state every read made of whole valid frames — one OR several per read —
+   is delivered completely, raises nothing and leaves the receiver synchronised (backlog 0) *)
+Theorem C11_after_sync_ascii : forall (dec : bytes -> dres) (c : cfg) (st : astate) (vs : list frame),
+  a_sync st -> Forall (valid_frame KAscii dec c) vs ->
+  exists st', a_recv base lrc ascii dec c st (concat (map (spec_adu KAscii) vs))
+              = (st', map (spec_delivery KAscii) vs, Done) /\ a_sync st'.
+Proof. exact ascii_after_sync. Qed.
+Print Assumptions C11_after_sync_ascii.
+
+(* valid traffic cut anywhere: the backlog is always a proper prefix of one frame; stated through
+   C06_ascii's chunking theorem: all frames delivered for every division into reads *)
+Theorem C11_backlog_ascii : forall (dec : bytes -> dres) (c : cfg) (frames : list frame) (chunks : list bytes),
+  Forall (valid_frame KAscii dec c) frames ->
+  concat chunks = concat (map (spec_adu KAscii) frames) ->
+  exists s', feed (a_recv base lrc ascii dec c) (a_init ascii) chunks
+             = (s', map (spec_delivery KAscii) frames, true).
+Proof. exact ascii_chunking. Qed.
+Print Assumptions C11_backlog_ascii.
+
+(* the scan loop terminates from ANY state on ANY input: the fuel S(length buffer) is never
+   exhausted (each iteration consumes at least one byte) *)
+Theorem C11_no_fuel_out_ascii : forall (dec : bytes -> dres) (c : cfg) (st : astate) (chunk : bytes) st' ds o,
+  a_recv base lrc ascii dec c st chunk = (st', ds, o) -> o <> OutOfFuel.
+Proof. exact ascii_recv_no_fuel_out. Qed.
+Print Assumptions C11_no_fuel_out_ascii.
+
+(* with the serial handlers' reset-on-exception, a call that raises leaves the receiver synchronised *)
+Theorem C11_recover_ascii_handler : forall (dec : bytes -> dres) (c : cfg) (st : astate) (chunk : bytes) st' ds e,
+  a_recv_h base lrc ascii dec c st chunk = (st', ds, Exc e) -> a_sync st'.
+Proof. exact ascii_handler_resync. Qed.
+Print Assumptions C11_recover_ascii_handler.
+
+(* REFUTED at the bare framer (open finding F-C11-ascii-undecodable-frame-stuck): a frame with a
+   valid LRC whose PDU the decoder rejects is never consumed; however many valid frames follow,
+   one per read, nothing is ever delivered and every call raises *)
+Definition C11_never_deaf_full_statement : Prop :=
+  forall (dec : bytes -> dres) (c : cfg) (garbage : bytes) (v : frame), valid_frame KAscii dec c v ->
+  exists n, snd (fst (feed (a_recv base lrc ascii dec c) (a_init ascii)
+                           (garbage :: repeat (spec_adu KAscii v) n))) <> [].
+Theorem C11_ascii_stuck_refuted : exists dec c garbage v,
+  valid_frame KAscii dec c v /\
+  forall n, snd (fst (feed (a_recv base lrc ascii dec c) (a_init ascii)
+                           (garbage :: repeat (spec_adu KAscii v) n))) = [].
+Proof.
+  exists stuck_dec, stuck_cfg, stuck_bad, stuck_good. destruct ascii_stuck as (Hv & Hn).
+  split; [exact Hv|]. intros n. rewrite (Hn n). reflexivity.
+Qed.
+Print Assumptions C11_ascii_stuck_refuted.
+
+Example C11_nonvacuous :
+  a_sync (a_init ascii) /\
+  valid_frame KAscii (fun _ => DMsg 3) {| c_units := [1]; c_single := None |}
+              {| f_tid := 0; f_pid := 0; f_uid := 1; f_pdu := [3%N; 0%N; 0%N; 0%N; 1%N] |}.
+Proof. split; [split; reflexivity|repeat split; cbn; lia]. Qed.
